@@ -3,10 +3,10 @@ package c19
 
 import (
 	"context"
-	"os"
-	"strconv"
 	"encoding/json"
 	"fmt"
+	"os"
+	"strconv"
 	"strings"
 	"sync"
 	"sync/atomic"
@@ -99,42 +99,59 @@ func runSelection(c Case) *pt.Failure {
 				xid = addrs[k%len(addrs)] + ":" + id
 			}
 			pol := policies[a.Policy%len(policies)]
-			var open []*lbSession
-			for s := range inMap {
-				if !s.IsClosed() {
-					open = append(open, s)
+			// the generated xid first, then a batch of sibling xids (same address, other transaction ids):
+			// where an xid lands on the hash ring depends on every character of it
+			probe := []string{xid}
+			if parts := strings.Split(xid, ":"); len(parts) == 3 {
+				for i := 1; i <= 24; i++ {
+					probe = append(probe, fmt.Sprintf("%s:%s:%s%d", parts[0], parts[1], parts[2], i))
 				}
 			}
-			res := loadbalance.Select(pol, m, xid)
-			where := fmt.Sprintf("step %d select(%s, %q)", step, pol, xid)
-			if res == nil {
-				if len(open) > 0 {
-					return pt.Failf("C19/select/"+pol+"/nil-with-open", "%s returned nil although %d open sessions are registered", where, len(open))
+			for _, xid := range probe {
+				if fl := checkSelect(step, pol, m, xid, inMap); fl != nil {
+					return fl
 				}
-				continue
 			}
-			ls, ok := res.(*lbSession)
-			if !ok {
-				return pt.Failf("C19/select/"+pol+"/foreign", "%s returned a session that was never registered", where)
+		}
+	}
+	return nil
+}
+
+func checkSelect(step int, pol string, m *sync.Map, xid string, inMap map[*lbSession]bool) *pt.Failure {
+	var open []*lbSession
+	for s := range inMap {
+		if !s.IsClosed() {
+			open = append(open, s)
+		}
+	}
+	res := loadbalance.Select(pol, m, xid)
+	where := fmt.Sprintf("step %d select(%s, %q)", step, pol, xid)
+	if res == nil {
+		if len(open) > 0 {
+			return pt.Failf("C19/select/"+pol+"/nil-with-open", "%s returned nil although %d open sessions are registered", where, len(open))
+		}
+		return nil
+	}
+	ls, ok := res.(*lbSession)
+	if !ok {
+		return pt.Failf("C19/select/"+pol+"/foreign", "%s returned a session that was never registered", where)
+	}
+	if ls.IsClosed() {
+		return pt.Failf("C19/select/"+pol+"/closed", "%s returned closed session %s (open registered sessions: %d)", where, ls.Stat(), len(open))
+	}
+	if !inMap[ls] {
+		return pt.Failf("C19/select/"+pol+"/unregistered", "%s returned session %s which is no longer registered", where, ls.Stat())
+	}
+	if pol == "XID" {
+		parts := strings.Split(xid, ":")
+		if len(parts) == 3 {
+			want := parts[0] + ":" + parts[1]
+			has := false
+			for _, s := range open {
+				has = has || s.addr == want
 			}
-			if ls.IsClosed() {
-				return pt.Failf("C19/select/"+pol+"/closed", "%s returned closed session %s (open registered sessions: %d)", where, ls.Stat(), len(open))
-			}
-			if !inMap[ls] {
-				return pt.Failf("C19/select/"+pol+"/unregistered", "%s returned session %s which is no longer registered", where, ls.Stat())
-			}
-			if pol == "XID" {
-				parts := strings.Split(xid, ":")
-				if len(parts) == 3 {
-					want := parts[0] + ":" + parts[1]
-					has := false
-					for _, s := range open {
-						has = has || s.addr == want
-					}
-					if has && ls.addr != want {
-						return pt.Failf("C19/select/XID/wrong-address", "%s returned %s although an open session to %s exists", where, ls.Stat(), want)
-					}
-				}
+			if has && ls.addr != want {
+				return pt.Failf("C19/select/XID/wrong-address", "%s returned %s although an open session to %s exists", where, ls.Stat(), want)
 			}
 		}
 	}
@@ -154,7 +171,7 @@ func drawActions(t *rapid.T) []Action {
 			as = append(as, Action{Kind: "remove", Idx: rapid.IntRange(0, 7).Draw(t, "idx")})
 		default:
 			xid := rapid.OneOf(
-				rapid.Map(rapid.IntRange(0, 3), func(k int) string { return fmt.Sprintf("@%d:%d", k, 1000+k) }),
+				rapid.Map(rapid.IntRange(0, 3999), func(k int) string { return fmt.Sprintf("@%d:%d", k%4, 1+k) }),
 				rapid.SampledFrom([]string{"", "abc", "a:b", "a:b:c:d", "10.9.9.9:1:5", "::", "10.0.0.1:8091"}),
 			).Draw(t, "xid")
 			as = append(as, Action{Kind: "select", Policy: rapid.IntRange(0, 5).Draw(t, "policy"), Xid: xid})
